@@ -18,6 +18,8 @@ const (
 )
 
 func c05(c *Ctx) {
+	c.R.Rule("FRESH(clone): ReservationInfo.Clone gives the clone its own AssignedPods map on every path, also for a reservation with no assigned pod yet")
+	freshCloneField(c, c.Fn(fwextPkg, "ReservationInfo", "Clone"), "AssignedPods", "a pod added on either side appears on the other without its allocation, so allocated no longer equals the sum of the assigned pods and the real add is skipped as a repeat")
 	r := c.R
 	r.Rule("PATH(tombstone): the delete handler treats a cache.DeletedFinalStateUnknown (delivered by value) like the object inside it: both reach the release, and no assertion to the pointer type exists")
 	c.Tombstone("PATH", resvPkg, "podEventHandler", "OnDelete", "deletePod")
